@@ -395,3 +395,640 @@ Proof.
       unfold dec_gen, closed_gen; rewrite ?Ec; cbn [g_routines g_closed g_done g_joined g_mid g_pub];
       rewrite ?Er, ?Ed, ?Ej; cbn; try reflexivity; try assumption.
 Qed.
+
+(* ================= G1: accounting, independent of the control point ================= *)
+Definition F1 (gs : list gen) (fs : list fn) : Prop :=
+  forall i f, nth_error fs i = Some f ->
+    exists g, nth_error gs (f_gen f) = Some g /\
+      (f_acc f = false \/ f_st f = FExited -> g_closed g = true).
+Definition F2 (gs : list gen) (fs : list fn) : Prop :=
+  forall k g, nth_error gs k = Some g ->
+    g_closed g = g_done g /\ g_routines g = Z.of_nat (count_live k fs) /\
+    (g_joined g = true <-> (g_closed g = true /\ g_routines g = 0%Z /\ has_acc k fs = true)).
+Definition G1 (gs : list gen) (fs : list fn) : Prop := F1 gs fs /\ F2 gs fs.
+
+Lemma nth_upd_eq : forall A (l : list A) k x y, nth_error l k = Some x -> nth_error (upd k y l) k = Some y.
+Proof. intros. apply nth_error_upd_same. eapply nth_lt; eauto. Qed.
+
+Lemma nth_upd_cases : forall A (l : list A) i x y j z,
+  nth_error l i = Some x -> nth_error (upd i y l) j = Some z ->
+  (j = i /\ z = y) \/ (j <> i /\ nth_error l j = Some z).
+Proof.
+  intros A l i x y j z Hi Hj. destruct (Nat.eq_dec i j) as [e|e].
+  - subst j. rewrite (nth_upd_eq _ _ _ _ _ Hi) in Hj. inversion Hj. left; auto.
+  - rewrite nth_error_upd_other in Hj by exact e. right; auto.
+Qed.
+
+Lemma cg_closed : forall g, g_closed (closed_gen g) = true.
+Proof. intro g. unfold closed_gen. destruct (g_closed g) eqn:E; [exact E|reflexivity]. Qed.
+Lemma cg_routines : forall g, g_routines (closed_gen g) = g_routines g.
+Proof. intro g. unfold closed_gen. destruct (g_closed g); reflexivity. Qed.
+Lemma cg_joined : forall g, g_joined (closed_gen g) = g_joined g.
+Proof. intro g. unfold closed_gen. destruct (g_closed g); reflexivity. Qed.
+Lemma cg_mid : forall g, g_mid (closed_gen g) = g_mid g.
+Proof. intro g. unfold closed_gen. destruct (g_closed g); reflexivity. Qed.
+Lemma cg_pub : forall g, g_pub (closed_gen g) = g_pub g.
+Proof. intro g. unfold closed_gen. destruct (g_closed g); reflexivity. Qed.
+Lemma cg_done : forall g, g_closed g = g_done g -> g_done (closed_gen g) = true.
+Proof. intros g H. unfold closed_gen. destruct (g_closed g) eqn:E; [congruence|reflexivity]. Qed.
+
+Lemma F1_upd_gen : forall gs fs k g g',
+  nth_error gs k = Some g -> (g_closed g = true -> g_closed g' = true) ->
+  F1 gs fs -> F1 (upd k g' gs) fs.
+Proof.
+  intros gs fs k g g' Hk Hc H i f Hf. destruct (H i f Hf) as (g0 & E & C).
+  destruct (Nat.eq_dec k (f_gen f)) as [e|e].
+  - subst k. exists g'. split; [eapply nth_upd_eq; eauto|]. intro X. apply Hc.
+    assert (g0 = g) by congruence. subst g0. auto.
+  - exists g0. rewrite nth_error_upd_other by exact e. auto.
+Qed.
+
+Lemma G1_samefields : forall gs fs k g g',
+  nth_error gs k = Some g ->
+  g_closed g' = g_closed g -> g_done g' = g_done g -> g_routines g' = g_routines g ->
+  g_joined g' = g_joined g ->
+  G1 gs fs -> G1 (upd k g' gs) fs.
+Proof.
+  intros gs fs k g g' Hk A B C D [H1 H2]. split.
+  - eapply F1_upd_gen; [exact Hk|congruence|exact H1].
+  - intros k' g0 H0. destruct (nth_upd_cases _ _ _ _ _ _ _ Hk H0) as [[-> ->]|[N H0']].
+    + rewrite A, B, C, D. apply H2; assumption.
+    + apply H2; assumption.
+Qed.
+
+Lemma G1_newgen : forall gs fs m, G1 gs fs -> G1 (gs ++ [new_gen m]) fs.
+Proof.
+  intros gs fs m [H1 H2]. split.
+  - intros i f Hf. destruct (H1 i f Hf) as (g & E & C). exists g. split; [apply nth_snoc_old; exact E|exact C].
+  - intros k g Hk. apply nth_snoc in Hk. destruct Hk as [Hk|[-> ->]]; [apply H2; exact Hk|].
+    destruct (no_gen (length gs) fs) as [A B].
+    { intros f I e. apply In_nth_error in I. destruct I as [i I].
+      destruct (H1 i f I) as (g & E & _). apply nth_lt in E. lia. }
+    cbn [new_gen g_closed g_done g_routines g_joined]. rewrite A, B.
+    split; [reflexivity|]. split; [reflexivity|]. split; [discriminate|intros (X & _); discriminate].
+Qed.
+
+Lemma acc_of_other : forall k k' f, f_gen f = k -> k <> k' -> acc_of k' f = false.
+Proof. intros k k' f E N. unfold acc_of. destruct (Nat.eqb_spec (f_gen f) k'); [congruence|reflexivity]. Qed.
+Lemma live_of_other : forall k k' f, f_gen f = k -> k <> k' -> live_of k' f = false.
+Proof. intros. unfold live_of. erewrite acc_of_other; eauto. Qed.
+
+Lemma G1_start : forall gs fs k kd g, G1 gs fs -> nth_error gs k = Some g ->
+  G1 (if g_closed g then gs else upd k (g_inc g) gs)
+     (fs ++ [mkfn k kd (negb (g_closed g)) FRunning false]).
+Proof.
+  intros gs fs k kd g [H1 H2] Hk. destruct (g_closed g) eqn:Ec; cbn [negb].
+  - split.
+    + intros i f Hf. apply nth_snoc in Hf. destruct Hf as [Hf|[-> ->]]; [apply H1 in Hf; exact Hf|].
+      cbn [f_gen f_acc f_st]. exists g. auto.
+    + intros k' g' Hk'. rewrite count_live_app, has_acc_app.
+      unfold live_of, acc_of. cbn [f_gen f_acc f_st]. rewrite !andb_false_r. cbn [b2n andb].
+      rewrite Nat.add_0_r, orb_false_r. apply H2; exact Hk'.
+  - split.
+    + intros i f Hf. apply nth_snoc in Hf. destruct Hf as [Hf|[-> ->]].
+      * eapply F1_upd_gen; [exact Hk|intro X; exact X|exact H1|exact Hf].
+      * cbn [f_gen f_acc f_st]. exists (g_inc g). split; [eapply nth_upd_eq; eauto|].
+        intros [X|X]; discriminate.
+    + intros k' g' Hk'. rewrite count_live_app, has_acc_app.
+      destruct (nth_upd_cases _ _ _ _ _ _ _ Hk Hk') as [[-> ->]|[N Hk'']].
+      * destruct (H2 k g Hk) as (A & B & C).
+        unfold live_of, acc_of. cbn [f_gen f_acc f_st g_inc g_closed g_done g_routines g_joined].
+        rewrite Nat.eqb_refl. cbn [andb b2n]. rewrite orb_true_r.
+        split; [exact A|]. split; [lia|].
+        split; [intro J; apply C in J; destruct J as (X & _); congruence|intros (X & _); congruence].
+      * rewrite (live_of_other k k'), (acc_of_other k k') by (auto; reflexivity).
+        cbn [b2n]. rewrite Nat.add_0_r, orb_false_r. apply H2; exact Hk''.
+Qed.
+
+Lemma G1_close : forall gs fs k g, G1 gs fs -> nth_error gs k = Some g ->
+  G1 (upd k (closed_gen g) gs) fs /\ negb (g_closed g) && g_done g = false.
+Proof.
+  intros gs fs k g [H1 H2] Hk. destruct (H2 k g Hk) as (A & B & C). split.
+  - split.
+    + eapply F1_upd_gen; [exact Hk|intros _; apply cg_closed|exact H1].
+    + intros k' g' Hk'. destruct (nth_upd_cases _ _ _ _ _ _ _ Hk Hk') as [[-> ->]|[N Hk'']]; [|apply H2; exact Hk''].
+      rewrite cg_closed, cg_done, cg_routines, cg_joined by exact A.
+      split; [reflexivity|]. split; [exact B|].
+      destruct (g_closed g) eqn:Ec; [exact C|].
+      split.
+      * intro J. apply C in J. destruct J as (X & _); discriminate.
+      * intros (_ & R & Hacc). exfalso.
+        apply has_acc_ex in Hacc. destruct Hacc as (i & f & Hf & Ha).
+        destruct (H1 i f Hf) as (g0 & E0 & C0).
+        unfold acc_of in Ha. apply andb_true_iff in Ha. destruct Ha as [Hg Hacc].
+        apply Nat.eqb_eq in Hg. rewrite Hg in E0. assert (g0 = g) by congruence. subst g0.
+        assert (L : live_of k f = true).
+        { unfold live_of, acc_of. rewrite Hg, Nat.eqb_refl, Hacc. cbn [andb].
+          destruct (f_st f) eqn:Es; try reflexivity. rewrite C0 in Ec by (right; reflexivity). discriminate. }
+        pose proof (count_live_pos _ _ _ _ Hf L). lia.
+  - rewrite <- A. destruct (g_closed g); reflexivity.
+Qed.
+
+Lemma G1_fn_upd : forall gs fs i f f',
+  nth_error fs i = Some f -> f_gen f' = f_gen f -> f_acc f' = f_acc f ->
+  (forall k, live_of k f' = live_of k f) ->
+  (f_st f' = FExited -> f_acc f = false \/ f_st f = FExited) ->
+  G1 gs fs -> G1 gs (upd i f' fs).
+Proof.
+  intros gs fs i f f' Hf Eg Ea El Est [H1 H2]. split.
+  - intros j fj Hj. destruct (nth_upd_cases _ _ _ _ _ _ _ Hf Hj) as [[-> ->]|[N Hj']]; [|apply H1 in Hj'; exact Hj'].
+    destruct (H1 i f Hf) as (g & E & C). exists g. rewrite Eg, Ea. split; [exact E|].
+    intros [X|X]; apply C; auto.
+  - intros k g Hk. pose proof (count_live_upd k fs i f f' Hf) as Q. rewrite El in Q.
+    assert (Q' : count_live k (upd i f' fs) = count_live k fs) by lia. rewrite Q'.
+    rewrite (has_acc_upd k fs i f f' Hf); [apply H2; exact Hk|].
+    unfold acc_of. rewrite Eg, Ea. reflexivity.
+Qed.
+
+Lemma G1_fnret : forall gs fs i f, G1 gs fs -> nth_error fs i = Some f -> f_st f = FRunning ->
+  G1 gs (upd i (f_set_st (if f_acc f then FReturned else FExited) f) fs).
+Proof.
+  intros gs fs i f H Hf Hs. eapply G1_fn_upd; eauto.
+  - intro k. unfold live_of, acc_of. cbn [f_set_st f_gen f_acc f_st]. rewrite Hs.
+    destruct (f_acc f); [reflexivity|]. rewrite !andb_false_r. reflexivity.
+  - cbn [f_set_st f_st]. destruct (f_acc f); [discriminate|auto].
+Qed.
+
+Lemma G1_init : forall gs fs i f, G1 gs fs -> nth_error fs i = Some f -> G1 gs (upd i (f_set_init f) fs).
+Proof.
+  intros gs fs i f H Hf. eapply G1_fn_upd; eauto.
+Qed.
+
+Lemma G1_handler : forall gs fs i f g, G1 gs fs ->
+  nth_error fs i = Some f -> f_st f = FReturned -> f_acc f = true -> nth_error gs (f_gen f) = Some g ->
+  G1 (upd (f_gen f) (dec_gen (closed_gen g)) gs) (upd i (f_set_st FExited f) fs) /\
+  (negb (g_closed g) && g_done g) || ((g_routines g - 1 =? 0)%Z && g_joined g) = false.
+Proof.
+  intros gs fs i f g [H1 H2] Hf Hs Ha Hk.
+  destruct (H2 _ g Hk) as (A & B & C).
+  assert (L : live_of (f_gen f) f = true).
+  { unfold live_of, acc_of. rewrite Nat.eqb_refl, Ha, Hs. reflexivity. }
+  pose proof (count_live_pos _ _ _ _ Hf L) as Pos.
+  assert (J : g_joined g = false).
+  { destruct (g_joined g); [|reflexivity]. destruct C as [C _]. destruct (C eq_refl) as (_ & R & _). lia. }
+  assert (L' : forall k, live_of k (f_set_st FExited f) = false).
+  { intro k. unfold live_of. cbn [f_set_st f_st]. apply andb_false_r. }
+  assert (A' : forall k, acc_of k (f_set_st FExited f) = acc_of k f) by reflexivity.
+  split.
+  - split.
+    + intros j fj Hj. destruct (nth_upd_cases _ _ _ _ _ _ _ Hf Hj) as [[-> ->]|[N Hj']].
+      * cbn [f_set_st f_gen]. exists (dec_gen (closed_gen g)).
+        split; [eapply nth_upd_eq; eauto|]. intros _. cbn [dec_gen g_closed]. apply cg_closed.
+      * eapply F1_upd_gen; [exact Hk|intros _; cbn [dec_gen g_closed]; apply cg_closed|exact H1|exact Hj'].
+    + intros k g' Hk'. pose proof (count_live_upd k fs i f (f_set_st FExited f) Hf) as Q.
+      rewrite L' in Q. rewrite (has_acc_upd k fs i f _ Hf) by apply A'.
+      destruct (nth_upd_cases _ _ _ _ _ _ _ Hk Hk') as [[-> ->]|[N Hk'']].
+      * rewrite L in Q. cbn [b2n] in Q.
+        cbn [dec_gen g_closed g_done g_routines g_joined].
+        rewrite cg_closed, cg_done, cg_routines, cg_joined, J by exact A.
+        split; [reflexivity|]. split; [lia|].
+        destruct (Z.eqb_spec (g_routines g - 1) 0) as [e|e].
+        -- split; [intros _|reflexivity]. split; [reflexivity|]. split; [lia|].
+           eapply has_acc_nth; eauto using live_acc.
+        -- split; [discriminate|]. intros (_ & R & _). lia.
+      * rewrite (live_of_other (f_gen f) k) in Q by auto. cbn [b2n] in Q.
+        assert (Q' : count_live k (upd i (f_set_st FExited f) fs) = count_live k fs) by lia.
+        rewrite Q'. apply H2; exact Hk''.
+  - rewrite J, andb_false_r, orb_false_r, <- A. destruct (g_closed g); reflexivity.
+Qed.
+
+Ltac inv_shape Sh :=
+  destruct Sh as [ Hg Hf Hp Hpc Hex Hh
+                 | m Hpc Hg Hf Hp Hpc' Hh
+                 | k kd g Hk Hg Hf Hp Hh Hctx
+                 | n g Hpc Hk Hg Hf Hp Hpc' Hh
+                 | w g Hpc Hk Hg Hf Hp Hpc' Hh
+                 | w g Hpc Hk Hj Hg Hf Hp Hpc' Hh
+                 | i f Hi Hst Hg Hf Hp Hpc Hh
+                 | i f g Hi Hst Hhb Hk Hg Hf Hp Hpc Hh
+                 | i f Hi Hst Hg Hf Hp Hpc Hh
+                 | i f g Hi Hst Hacc Hk Hg Hf Hp Hpc Hh ].
+
+Lemma G1_shape : forall s s', shape s s' -> G1 (gens s) (fns s) ->
+  G1 (gens s') (fns s') /\ panicked s' = false.
+Proof.
+  intros s s' Sh H. inv_shape Sh; rewrite ?Hg, ?Hf, ?Hp.
+  - auto.
+  - split; [apply G1_newgen; exact H|reflexivity].
+  - split; [apply G1_start; assumption|reflexivity].
+  - split; [|reflexivity]. eapply G1_samefields; eauto.
+  - apply G1_close; assumption.
+  - auto.
+  - split; [apply G1_fnret; assumption|reflexivity].
+  - auto.
+  - split; [apply G1_init; assumption|reflexivity].
+  - apply G1_handler; assumption.
+Qed.
+
+(* ================= G2: accounting against the control point of run ================= *)
+Definition cd (g : gen) : Prop := g_closed g = true /\ g_routines g = 0%Z.
+
+Record G2 (gs : list gen) (fs : list fn) (p : pcs) : Prop := {
+  g2_q : quiescent p = true -> forall k g, nth_error gs k = Some g -> cd g;
+  g2_nq : quiescent p = false ->
+          0 < length gs /\ forall k g, nth_error gs k = Some g -> k < pred (length gs) -> cd g;
+  g2_cw : forall w, p = PCloseWait w ->
+          exists g, nth_error gs (pred (length gs)) = Some g /\ g_closed g = true /\
+                    has_acc (pred (length gs)) fs = true;
+  g2_hb : p = PStartHB ->
+          exists g, nth_error gs (pred (length gs)) = Some g /\ g_closed g = false /\ g_pub g = false /\
+                    forall f, In f fs -> f_gen f <> pred (length gs);
+  g2_acc : forall f, In f fs -> is_hb f = true -> f_acc f = true }.
+
+Lemma G2_quiet : forall gs fs p p', pcrel p p' -> G2 gs fs p -> G2 gs fs p'.
+Proof.
+  intros gs fs p p' R H. destruct R as [E | [[Q Q'] | [Q [w E]]]].
+  - subst p'. exact H.
+  - constructor.
+    + intros _. apply (g2_q _ _ _ H Q).
+    + intro X. congruence.
+    + intros w E. rewrite E in Q'. discriminate.
+    + intros E. rewrite E in Q'. discriminate.
+    + apply (g2_acc _ _ _ H).
+  - subst p'. constructor.
+    + discriminate.
+    + intros _. apply (g2_nq _ _ _ H Q).
+    + discriminate.
+    + discriminate.
+    + apply (g2_acc _ _ _ H).
+Qed.
+
+Lemma G2_newgen : forall gs fs m, G1 gs fs -> G2 gs fs PFetch -> G2 (gs ++ [new_gen m]) fs PStartHB.
+Proof.
+  intros gs fs m [H1 _] H.
+  assert (L : pred (length (gs ++ [new_gen m])) = length gs) by (rewrite app_length; cbn [length]; lia).
+  constructor; rewrite ?L.
+  - discriminate.
+  - intros _. split; [rewrite app_length; cbn [length]; lia|].
+    intros k g Hk Hlt. apply nth_snoc in Hk. destruct Hk as [Hk|[-> _]]; [|lia].
+    eapply (g2_q _ _ _ H); [reflexivity|exact Hk].
+  - discriminate.
+  - intros _. exists (new_gen m). split; [apply nth_snoc_new|]. split; [reflexivity|]. split; [reflexivity|].
+    intros f I e. apply In_nth_error in I. destruct I as [i I].
+    destruct (H1 i f I) as (g & E & _). apply nth_lt in E. lia.
+  - apply (g2_acc _ _ _ H).
+Qed.
+
+Definition start_gens (k : nat) (g : gen) (gs : list gen) : list gen :=
+  if g_closed g then gs else upd k (g_inc g) gs.
+
+Lemma sg_length : forall k g gs, length (start_gens k g gs) = length gs.
+Proof. intros. unfold start_gens. destruct (g_closed g); [reflexivity|apply upd_length]. Qed.
+
+Lemma sg_nth : forall k g gs k' g', nth_error gs k = Some g ->
+  nth_error (start_gens k g gs) k' = Some g' ->
+  nth_error gs k' = Some g' \/ (k' = k /\ g_closed g = false /\ g' = g_inc g).
+Proof.
+  intros k g gs k' g' Hk H. unfold start_gens in H. destruct (g_closed g) eqn:Ec; [left; exact H|].
+  destruct (nth_upd_cases _ _ _ _ _ _ _ Hk H) as [[-> ->]|[N H']]; auto.
+Qed.
+
+Lemma sg_other : forall k g gs k', k' <> k -> nth_error (start_gens k g gs) k' = nth_error gs k'.
+Proof.
+  intros. unfold start_gens. destruct (g_closed g); [reflexivity|]. apply nth_error_upd_other. auto.
+Qed.
+
+Lemma sg_keep : forall k g gs k' g', nth_error gs k = Some g -> nth_error gs k' = Some g' ->
+  g_closed g' = true -> nth_error (start_gens k g gs) k' = Some g'.
+Proof.
+  intros k g gs k' g' Hk Hk' C. destruct (Nat.eq_dec k' k) as [e|e].
+  - subst k'. assert (g' = g) by congruence. subst g'. unfold start_gens. rewrite C. exact Hk.
+  - rewrite sg_other by exact e. exact Hk'.
+Qed.
+
+Lemma G2_start_user : forall gs fs p k g, G2 gs fs p -> nth_error gs k = Some g -> g_pub g = true ->
+  G2 (start_gens k g gs) (fs ++ [mkfn k KUser (negb (g_closed g)) FRunning false]) p.
+Proof.
+  intros gs fs p k g H Hk Hpub. constructor; rewrite ?sg_length.
+  - intros Q k' g' Hk'. destruct (sg_nth _ _ _ _ _ Hk Hk') as [O|(-> & C & ->)].
+    + eapply (g2_q _ _ _ H); eauto.
+    + destruct (g2_q _ _ _ H Q _ _ Hk) as [X _]. congruence.
+  - intros Q. destruct (g2_nq _ _ _ H Q) as [NE Hlt]. split; [exact NE|].
+    intros k' g' Hk' L. destruct (sg_nth _ _ _ _ _ Hk Hk') as [O|(-> & C & ->)].
+    + eapply Hlt; eauto.
+    + destruct (Hlt _ _ Hk L) as [X _]. congruence.
+  - intros w E. destruct (g2_cw _ _ _ H w E) as (gc & Egc & Cc & Ha). exists gc.
+    split; [eapply sg_keep; eauto|]. split; [exact Cc|]. rewrite has_acc_app, Ha. reflexivity.
+  - intros E. destruct (g2_hb _ _ _ H E) as (gc & Egc & Cc & Pc & Hno).
+    assert (N : k <> pred (length gs)) by (intro e; subst k; congruence).
+    exists gc. split; [rewrite sg_other by auto; exact Egc|]. split; [exact Cc|]. split; [exact Pc|].
+    intros f I. apply in_app_iff in I. destruct I as [I|[<-|[]]]; [apply Hno; exact I|exact N].
+  - intros f I. apply in_app_iff in I. destruct I as [I|[<-|[]]]; [apply (g2_acc _ _ _ H); exact I|discriminate].
+Qed.
+
+Lemma G2_nq_step : forall gs fs p gs' fs' p', G2 gs fs p ->
+  quiescent p = false -> quiescent p' = false -> p' <> PStartHB -> (forall w, p' <> PCloseWait w) ->
+  length gs' = length gs ->
+  (forall k, k < pred (length gs) -> nth_error gs' k = nth_error gs k) ->
+  (forall f, In f fs' -> is_hb f = true -> f_acc f = true) ->
+  G2 gs' fs' p'.
+Proof.
+  intros gs fs p gs' fs' p' H Q Q' N1 N2 L Same Acc. constructor; rewrite ?L.
+  - congruence.
+  - intros _. destruct (g2_nq _ _ _ H Q) as [NE Hlt]. split; [exact NE|].
+    intros k g Hk Lk. rewrite Same in Hk by exact Lk. eapply Hlt; eauto.
+  - intros w E. destruct (N2 w E).
+  - intros E. destruct (N1 E).
+  - exact Acc.
+Qed.
+
+Lemma after_start_nq : forall n, quiescent (after_start n) = false /\ after_start n <> PStartHB /\
+  forall w, after_start n <> PCloseWait w.
+Proof. intros [|n]; cbn; repeat split; try discriminate; intros; discriminate. Qed.
+
+Lemma G2_start_cur : forall gs fs p kd g n, G2 gs fs p -> quiescent p = false ->
+  nth_error gs (pred (length gs)) = Some g ->
+  (kd = KHeartbeat -> g_closed g = false) ->
+  G2 (start_gens (pred (length gs)) g gs)
+     (fs ++ [mkfn (pred (length gs)) kd (negb (g_closed g)) FRunning false]) (after_start n).
+Proof.
+  intros gs fs p kd g n H Q Hk Hkd. destruct (after_start_nq n) as (A & B & C).
+  eapply G2_nq_step; eauto.
+  - apply sg_length.
+  - intros k L. apply sg_other. lia.
+  - intros f I. apply in_app_iff in I. destruct I as [I|[<-|[]]]; [apply (g2_acc _ _ _ H); exact I|].
+    unfold is_hb. cbn [f_kind f_acc]. destruct kd; try discriminate. intros _. rewrite Hkd; reflexivity.
+Qed.
+
+Lemma G2_to_q : forall gs fs p gs' p' g', G2 gs fs p ->
+  quiescent p = false -> quiescent p' = true -> length gs' = length gs ->
+  (forall k, k < pred (length gs) -> nth_error gs' k = nth_error gs k) ->
+  nth_error gs' (pred (length gs)) = Some g' -> cd g' ->
+  G2 gs' fs p'.
+Proof.
+  intros gs fs p gs' p' g' H Q Q' L Same Hc Cd. constructor; rewrite ?L.
+  - intros _ k g Hk. destruct (g2_nq _ _ _ H Q) as [NE Hlt].
+    destruct (lt_dec k (pred (length gs))) as [Lk|Lk].
+    + rewrite Same in Hk by exact Lk. eapply Hlt; eauto.
+    + apply nth_lt in Hk as Hk'. assert (k = pred (length gs)) by lia. subst k.
+      assert (g = g') by congruence. subst g. exact Cd.
+  - congruence.
+  - intros w E. rewrite E in Q'. discriminate.
+  - intros E. rewrite E in Q'. discriminate.
+  - apply (g2_acc _ _ _ H).
+Qed.
+
+Lemma G2_fn_upd : forall gs fs p i f f', G2 gs fs p -> nth_error fs i = Some f ->
+  f_gen f' = f_gen f -> f_acc f' = f_acc f -> f_kind f' = f_kind f ->
+  G2 gs (upd i f' fs) p.
+Proof.
+  intros gs fs p i f f' H Hf Eg Ea Ek. constructor.
+  - apply (g2_q _ _ _ H).
+  - apply (g2_nq _ _ _ H).
+  - intros w E. destruct (g2_cw _ _ _ H w E) as (gc & Egc & Cc & Ha). exists gc.
+    split; [exact Egc|]. split; [exact Cc|]. rewrite (has_acc_upd _ _ _ f _ Hf); [exact Ha|].
+    unfold acc_of. rewrite Eg, Ea. reflexivity.
+  - intros E. destruct (g2_hb _ _ _ H E) as (gc & Egc & Cc & Pc & Hno). exists gc.
+    split; [exact Egc|]. split; [exact Cc|]. split; [exact Pc|].
+    intros x I. apply In_upd in I. destruct I as [->|I]; [|apply Hno; exact I].
+    rewrite Eg. apply Hno. eapply nth_error_In; eauto.
+  - intros x I. apply In_upd in I. destruct I as [->|I]; [|apply (g2_acc _ _ _ H); exact I].
+    unfold is_hb. rewrite Ek, Ea. apply (g2_acc _ _ _ H f). eapply nth_error_In; eauto.
+Qed.
+
+Lemma G2_handler_gens : forall gs fs p k g g', G2 gs fs p -> nth_error gs k = Some g ->
+  (0 < g_routines g)%Z -> g_closed g' = true -> (exists f, In f fs /\ f_gen f = k) ->
+  G2 (upd k g' gs) fs p.
+Proof.
+  intros gs fs p k g g' H Hk R C (f & I & Ef). constructor; rewrite ?upd_length.
+  - intros Q. destruct (g2_q _ _ _ H Q _ _ Hk) as [_ X]. lia.
+  - intros Q. destruct (g2_nq _ _ _ H Q) as [NE Hlt]. split; [exact NE|].
+    intros k' g0 Hk' L.
+    destruct (nth_upd_cases _ _ _ _ _ _ _ Hk Hk') as [[-> ->]|[N Hk'']].
+    + destruct (Hlt _ _ Hk L) as [_ X]. lia.
+    + eapply Hlt; eauto.
+  - intros w E. destruct (g2_cw _ _ _ H w E) as (gc & Egc & Cc & Ha).
+    destruct (Nat.eq_dec k (pred (length gs))) as [e|e].
+    + exists g'. rewrite <- e. split; [eapply nth_upd_eq; eauto|]. split; [exact C|]. rewrite e. exact Ha.
+    + exists gc. rewrite nth_error_upd_other by exact e. auto.
+  - intros E. destruct (g2_hb _ _ _ H E) as (gc & Egc & Cc & Pc & Hno).
+    assert (N : k <> pred (length gs)) by (rewrite <- Ef; apply Hno; exact I).
+    exists gc. rewrite nth_error_upd_other by exact N. auto.
+  - apply (g2_acc _ _ _ H).
+Qed.
+
+Lemma G2_shape : forall s s', shape s s' -> G1 (gens s) (fns s) ->
+  G2 (gens s) (fns s) (pc s) -> G2 (gens s') (fns s') (pc s').
+Proof.
+  intros s s' Sh [H1 H2] H. inv_shape Sh; rewrite ?Hg, ?Hf.
+  - eapply G2_quiet; eauto.
+  - rewrite Hpc'. rewrite Hpc in H. apply G2_newgen; [split; assumption|exact H].
+  - fold (start_gens k g (gens s)).
+    destruct Hctx as [(-> & Hpub & E) | [(-> & -> & E & E') | (-> & -> & n & E & E')]].
+    + rewrite E. apply G2_start_user; assumption.
+    + rewrite E'. unfold cur. eapply G2_start_cur; eauto.
+      * rewrite E; reflexivity.
+      * intros _. rewrite E in H. destruct (g2_hb _ _ _ H eq_refl) as (gc & Egc & Cc & _).
+        unfold cur in Hk. congruence.
+    + rewrite E'. unfold cur. eapply G2_start_cur; eauto.
+      * rewrite E; reflexivity.
+      * discriminate.
+  - rewrite Hpc'. eapply G2_nq_step; eauto.
+    + rewrite Hpc; reflexivity.
+    + discriminate.
+    + discriminate.
+    + apply upd_length.
+    + intros k L. apply nth_error_upd_other. unfold cur. lia.
+    + apply (g2_acc _ _ _ H).
+  - destruct (H2 _ _ Hk) as (A & B & C).
+    destruct (0 <? g_routines g)%Z eqn:Er.
+    + rewrite Hpc'. constructor; rewrite ?upd_length.
+      * discriminate.
+      * intros _. rewrite Hpc in H. destruct (g2_nq _ _ _ H eq_refl) as [NE Hlt]. split; [exact NE|].
+        intros k g0 Hk0 L. rewrite nth_error_upd_other in Hk0 by (unfold cur; lia). eapply Hlt; eauto.
+      * intros w0 _. exists (closed_gen g). split; [eapply nth_upd_eq; exact Hk|].
+        split; [apply cg_closed|]. apply count_live_has_acc. fold (cur s). lia.
+      * discriminate.
+      * apply (g2_acc _ _ _ H).
+    + eapply (G2_to_q _ _ _ _ _ (closed_gen g) H); eauto.
+      * rewrite Hpc; reflexivity.
+      * apply upd_length.
+      * intros k L. apply nth_error_upd_other. unfold cur. lia.
+      * eapply nth_upd_eq; exact Hk.
+      * split; [apply cg_closed|]. rewrite cg_routines. lia.
+  - destruct (H2 _ _ Hk) as (A & B & C). apply C in Hj. destruct Hj as (X & Y & _).
+    eapply (G2_to_q _ _ _ _ _ g H); eauto.
+    + rewrite Hpc; reflexivity.
+    + split; assumption.
+  - rewrite Hpc. eapply G2_fn_upd; eauto.
+  - rewrite Hpc. exact H.
+  - rewrite Hpc. eapply G2_fn_upd; eauto.
+  - rewrite Hpc. eapply G2_fn_upd; eauto.
+    destruct (H2 _ _ Hk) as (A & B & C).
+    assert (L : live_of (f_gen f) f = true).
+    { unfold live_of, acc_of. rewrite Nat.eqb_refl, Hacc, Hst. reflexivity. }
+    pose proof (count_live_pos _ _ _ _ Hi L) as Pos.
+    eapply G2_handler_gens; eauto.
+    + lia.
+    + cbn [dec_gen g_closed]. apply cg_closed.
+    + exists f. split; [eapply nth_error_In; eauto|reflexivity].
+Qed.
+
+(* ================= the invariant on reachable states ================= *)
+Record Inv (s : state) : Prop := {
+  inv_pan : panicked s = false;
+  inv_g1 : G1 (gens s) (fns s);
+  inv_g2 : G2 (gens s) (fns s) (pc s) }.
+
+Lemma Inv_init : forall w, Inv (init w).
+Proof.
+  intro w. constructor; cbn.
+  - reflexivity.
+  - split; intros [|i] x H; discriminate H.
+  - constructor; cbn; try discriminate.
+    + intros _ [|k] g H; discriminate H.
+    + intros f [].
+Qed.
+
+Lemma Inv_step : forall s l s', Inv s -> step s l = Some s' -> Inv s'.
+Proof.
+  intros s l s' [P A B] H. apply step_shape in H. destruct H as [_ Sh].
+  destruct (G1_shape _ _ Sh A) as [A' P']. constructor; [exact P'|exact A'|].
+  eapply G2_shape; eauto.
+Qed.
+
+Lemma Inv_run : forall w ls s, run (init w) ls = Some s -> Inv s.
+Proof. intros w ls s H. eapply (inv_run Inv); eauto using Inv_init, Inv_step. Qed.
+
+(* ---- A: accounting ---- *)
+Theorem accounting_holds : forall w ls s, run (init w) ls = Some s ->
+  panicked s = false /\
+  (forall k g, nth_error (gens s) k = Some g ->
+     g_closed g = g_done g /\ g_routines g = Z.of_nat (count_live k (fns s)) /\
+     (g_joined g = true <-> (g_closed g = true /\ g_routines g = 0%Z /\ has_acc k (fns s) = true))) /\
+  (forall wy, pc s = PCloseWait wy ->
+     exists g, nth_error (gens s) (cur s) = Some g /\ g_closed g = true /\
+               has_acc (cur s) (fns s) = true /\
+               (g_joined g = false -> 0 < count_live (cur s) (fns s))).
+Proof.
+  intros w ls s H. apply Inv_run in H. destruct H as [P [H1 H2] B].
+  split; [exact P|]. split; [exact H2|].
+  intros wy E. destruct (g2_cw _ _ _ B wy E) as (g & Eg & C & Ha).
+  exists g. fold (cur s) in Eg, Ha. split; [exact Eg|]. split; [exact C|]. split; [exact Ha|].
+  intro J. destruct (H2 _ _ Eg) as (_ & R & I).
+  destruct (count_live (cur s) (fns s)) eqn:Ecl; [|lia].
+  assert (X : g_joined g = true) by (apply I; repeat split; auto; lia). congruence.
+Qed.
+
+Lemma live_fn_can_move : forall w ls s, run (init w) ls = Some s ->
+  forall k i f, nth_error (fns s) i = Some f -> live_of k f = true -> f_st f = FReturned ->
+  exists s', step s (LFnHandler i) = Some s'.
+Proof.
+  intros w ls s H k i f Hf L Hs. apply Inv_run in H. destruct H as [P [H1 H2] B].
+  unfold step. rewrite P, Hf, Hs.
+  apply live_acc in L. unfold acc_of in L. apply andb_true_iff in L. destruct L as [_ L]. rewrite L.
+  destruct (H1 _ _ Hf) as (g & Eg & _). unfold handler. rewrite Eg.
+  destruct (end_gen (f_gen f) g s) as [g1 s1].
+  destruct (g_routines g1 - 1 =? 0)%Z; eexists; reflexivity.
+Qed.
+
+(* ---- B: cancel on end ---- *)
+Definition ends_gen (s : state) (l : label) : option nat :=
+  match l with
+  | LFnHandler i => option_map f_gen (nth_error (fns s) i)
+  | LGenCloseLock => Some (cur s)
+  | _ => None end.
+
+Definition triggers (l : label) : option nat :=
+  match l with
+  | LFnReturn i | LFnSeeDone i | LHbTick i (AErr _) | LWatchInit i (AErr _)
+  | LWatchTick i WChanged | LWatchTick i WDropped => Some i
+  | _ => None end.
+
+Lemma step_handler : forall s i s', step s (LFnHandler i) = Some s' ->
+  exists f g, nth_error (fns s) i = Some f /\ f_st f = FReturned /\ f_acc f = true /\
+    nth_error (gens s) (f_gen f) = Some g /\
+    gens s' = upd (f_gen f) (dec_gen (closed_gen g)) (gens s) /\
+    hist s' = (if (g_routines g - 1 =? 0)%Z then [HJoined (f_gen f)] else []) ++
+              (if g_closed g then [] else [HDone (f_gen f)]) ++ hist s.
+Proof.
+  intros s f s' H. unfold step in H. destruct (panicked s); [discriminate|].
+  destruct (nth_error (fns s) f) as [fn|] eqn:Ef; [|discriminate H].
+  destruct (f_st fn) eqn:Est; try discriminate H.
+  destruct (f_acc fn) eqn:Ea; [|discriminate H].
+  unfold handler in H.
+  destruct (nth_error (gens s) (f_gen fn)) as [g|] eqn:Eg; [|discriminate H].
+  exists fn, g. repeat (split; [first [reflexivity|assumption]|]).
+  unfold end_gen in H.
+  destruct (g_closed g) eqn:Ec; cbv beta iota zeta in H;
+    cbn [g_routines g_closed g_done g_joined g_mid g_pub] in H;
+    destruct (g_routines g - 1 =? 0)%Z eqn:Er; cbv beta iota zeta in H;
+    destruct (g_done g) eqn:Ed; destruct (g_joined g) eqn:Ej;
+    inversion H; subst s'; clear H.
+  all: unfold dec_gen, closed_gen; rewrite ?Ec; cbn [g_routines g_closed g_done g_joined g_mid g_pub];
+    rewrite ?Er, ?Ed, ?Ej; cbn; split; reflexivity.
+Qed.
+
+Lemma step_closelock : forall s s', step s LGenCloseLock = Some s' ->
+  exists w g, pc s = PCloseLock w /\ nth_error (gens s) (cur s) = Some g /\
+    gens s' = upd (cur s) (closed_gen g) (gens s) /\
+    ext (evP s') (if g_closed g then hist s else HDone (cur s) :: hist s) (hist s').
+Proof.
+  intros s s' H. unfold step in H. destruct (panicked s); [discriminate|].
+  destruct (pc s) eqn:Epc; try discriminate H.
+  destruct (nth_error (gens s) (cur s)) as [g|] eqn:Eg; [|discriminate H].
+  exists w, g. repeat (split; [first [reflexivity|assumption]|]).
+  unfold end_gen in H.
+  destruct (g_closed g) eqn:Ec; cbv beta iota zeta in H; cbn [g_routines] in H;
+    destruct (0 <? g_routines g)%Z eqn:Er.
+  all: unfold after_close, enter_leave, finish_leave, exit_run in H.
+  all: destruct (g_done g) eqn:Ed.
+  all: repeat (cbn [mid ev set_gens set_pc set_mid set_panic] in H; bm H); try discriminate H.
+  all: inversion H; subst s'; clear H.
+  all: unfold closed_gen; rewrite ?Ec, ?Ed, ?Er; cbn; split; [reflexivity|ext_tac].
+Qed.
+
+Theorem cancel_on_end_holds : forall w ls s l s',
+  run (init w) ls = Some s -> step s l = Some s' ->
+  forall k, ends_gen s l = Some k ->
+  exists g', nth_error (gens s') k = Some g' /\ g_done g' = true /\ g_closed g' = true /\
+    (gen_done s k = false -> exists es, hist s' = es ++ hist s /\ In (HDone k) es).
+Proof.
+  intros w ls s l s' R H k E. apply Inv_run in R. destruct R as [P [H1 H2] B].
+  destruct l; try discriminate E; cbn [ends_gen] in E.
+  - (* LGenCloseLock *)
+    inversion E; subst k; clear E.
+    apply step_closelock in H. destruct H as (wy & g & Epc & Eg & Hg & Hh).
+    destruct (H2 _ _ Eg) as (A & _).
+    exists (closed_gen g). rewrite Hg. split; [eapply nth_upd_eq; exact Eg|].
+    split; [apply cg_done; exact A|]. split; [apply cg_closed|].
+    unfold gen_done. rewrite Eg. intro D. rewrite <- A in D. rewrite D in Hh.
+    apply ext_app in Hh. destruct Hh as (es & Ees & _).
+    exists (es ++ [HDone (cur s)]). rewrite <- app_assoc. split; [exact Ees|].
+    apply in_or_app. right. left. reflexivity.
+  - (* LFnHandler *)
+    apply step_handler in H. destruct H as (fn & g & Ef & Est & Ea & Eg & Hg & Hh).
+    rewrite Ef in E. cbn in E. inversion E; subst k; clear E.
+    destruct (H2 _ _ Eg) as (A & _).
+    exists (dec_gen (closed_gen g)). rewrite Hg. split; [eapply nth_upd_eq; exact Eg|].
+    cbn [dec_gen g_done g_closed].
+    split; [apply cg_done; exact A|]. split; [apply cg_closed|].
+    unfold gen_done. rewrite Eg. intro D. rewrite <- A in D. rewrite D in Hh.
+    eexists. rewrite app_assoc in Hh. split; [exact Hh|].
+    apply in_or_app. right. left. reflexivity.
+Qed.
+
+Lemma trigger_returns : forall s l s' i, step s l = Some s' -> triggers l = Some i ->
+  exists f f', nth_error (fns s) i = Some f /\ f_st f = FRunning /\
+    nth_error (fns s') i = Some f' /\
+    f_st f' = (if f_acc f then FReturned else FExited) /\ f_gen f' = f_gen f /\ f_acc f' = f_acc f.
+Proof.
+  intros s l s' i H Ht. unfold step in H. destruct (panicked s); [discriminate|].
+  destruct l; cbn in Ht; repeat bm Ht; try discriminate Ht; inversion Ht; subst; clear Ht.
+  all: destruct (nth_error (fns s) i) as [fn|] eqn:Ef; [|discriminate H].
+  all: match type of H with (if ?c then _ else _) = _ => destruct c eqn:Ec end; [|discriminate H].
+  all: try (destruct (nth_error (gens s) (f_gen fn)) eqn:Eg; [|discriminate H]).
+  all: inversion H; subst s'; clear H.
+  all: repeat match goal with X : _ && _ = true |- _ => apply andb_true_iff in X; destruct X end.
+  all: exists fn, (f_set_st (if f_acc fn then FReturned else FExited) fn).
+  all: split; [reflexivity|]; split; [apply running_st; assumption|].
+  all: split; [cbn; eapply nth_upd_eq; exact Ef|]; cbn; auto.
+Qed.
+
+Lemma late_fn_gen_done : forall w ls s, run (init w) ls = Some s ->
+  forall i f, nth_error (fns s) i = Some f -> f_acc f = false -> gen_done s (f_gen f) = true.
+Proof.
+  intros w ls s R i f Hf Ha. apply Inv_run in R. destruct R as [P [H1 H2] B].
+  destruct (H1 _ _ Hf) as (g & Eg & C). unfold gen_done. rewrite Eg.
+  destruct (H2 _ _ Eg) as (A & _). rewrite <- A. apply C. left. exact Ha.
+Qed.
